@@ -104,7 +104,8 @@ func (c *NamedCollectionNames) FindRegex(key *regexp.Regexp) []types.MatchData {
 	n := 0
 	// Collect matching data slices in a single pass to avoid evaluating the regex twice per key.
 	var matched [][]keyValue
-	for k, data := range c.collection.data {
+	for _, k := range c.collection.order {
+		data := c.collection.data[k]
 		if key.MatchString(k) {
 			n += len(data)
 			matched = append(matched, data)
@@ -167,8 +168,8 @@ func (c *NamedCollectionNames) FindAll() []types.MatchData {
 	buf := make([]corazarules.MatchData, n)
 	res := make([]types.MatchData, n)
 	i := 0
-	for _, data := range c.collection.data {
-		for _, d := range data {
+	for _, k := range c.collection.order {
+		for _, d := range c.collection.data[k] {
 			buf[i] = corazarules.MatchData{
 				Variable_: c.variable,
 				Key_:      d.key,
@@ -190,8 +191,8 @@ func (c *NamedCollectionNames) String() string {
 	res.WriteString(c.variable.Name())
 	res.WriteString(": ")
 	firstOccurrence := true
-	for _, data := range c.collection.data {
-		for _, d := range data {
+	for _, k := range c.collection.order {
+		for _, d := range c.collection.data[k] {
 			if !firstOccurrence {
 				res.WriteString(",")
 			}
